@@ -11,7 +11,7 @@ import (
 
 func init() {
 	register("C17", propMeta{
-		Explanation: "E-GUARD + E-PAIR + E-CHAN + E-PROV on common/turbotunnel. O-1 errors only after close: in RedialPacketConn.ReadFrom/WriteTo every return with a non-nil error is reachable only through a '<-closed' select case; closed is closed only in closeWithError, called only from Close and from the err != nil edge of dialContext. O-2 one carrier at a time, each closed: in dialLoop a carrier obtained on the err == nil edge reaches conn.Close() on every path before the next dial or a return; exchange is called synchronously. O-3 no goroutine outlives its carrier: in every goroutine literal of the package each blocking select has a case on the connection's closed channel, and each unconditional send goes to a channel made by the enclosing call whose constant capacity covers the sends the goroutine can perform before returning. O-4 copy-on-enqueue, never block: every send on a packet queue is inside a select with default and sends a slice made by this invocation, filled by copy from the caller's buffer, of the caller's length; no []byte parameter flows into a send, a struct field or a global; both ReadFrom methods return copy(p, queued). O-5 close-once and publication order: close(closed) only inside closeOnce.Do and after err.Store. O-6 closed means failed: ReadFrom/WriteTo/QueueIncoming test closed (polling) before touching a queue. O-7 expiry shape: removeExpired pops only while now.Sub(oldest.LastSeen) >= timeout with the unscaled timeout; Less orders by LastSeen.Before; the sweeper sleeps timeout/2 and passes the same timeout; SendQueue refreshes LastSeen before heap.Fix/heap.Push; Pop closes the removed queue. Each clause is necessary: e.g. an unbuffered error channel retains one goroutine and carrier per redial. Added after the second seeding round: O-7 also requires that Push/Pop/Swap of clientMapInner have no static caller outside the interface methods (container/heap only); named methods started with go count as goroutine bodies when that go statement is their only use.",
+		Explanation: "E-GUARD + E-PAIR + E-CHAN + E-PROV on common/turbotunnel. O-1 errors only after close: in RedialPacketConn.ReadFrom/WriteTo every return with a non-nil error is reachable only through a '<-closed' select case; closed is closed only in closeWithError, called only from Close and from the err != nil edge of dialContext. O-2 one carrier at a time, each closed: in dialLoop a carrier obtained on the err == nil edge reaches conn.Close() on every path before the next dial or a return; exchange is called synchronously. O-3 no goroutine outlives its carrier: in every goroutine literal of the package each blocking select has a case on the connection's closed channel, and each unconditional send goes to a channel made by the enclosing call whose constant capacity covers the sends the goroutine can perform before returning. O-4 copy-on-enqueue, never block: every send on a packet queue is inside a select with default and sends a slice made by this invocation, filled by copy from the caller's buffer, of the caller's length; no []byte parameter flows into a send, a struct field or a global; both ReadFrom methods return copy(p, queued). O-5 close-once and publication order: close(closed) only inside closeOnce.Do and after err.Store. O-6 closed means failed: ReadFrom/WriteTo/QueueIncoming test closed (polling) before touching a queue. O-7 expiry shape: removeExpired pops only while now.Sub(oldest.LastSeen) >= timeout with the unscaled timeout; Less orders by LastSeen.Before; the sweeper sleeps timeout/2 and passes the same timeout; SendQueue refreshes LastSeen before heap.Fix/heap.Push; Pop closes the removed queue. Each clause is necessary: e.g. an unbuffered error channel retains one goroutine and carrier per redial. Added after the second seeding round: O-7 also requires that Push/Pop/Swap of clientMapInner have no static caller outside the interface methods (container/heap only); named methods started with go count as goroutine bodies when that go statement is their only use. Added after the third seeding round: the writer goroutine of exchange signals its end on every return (close or send on writeErrCh); the sweeper reads the clock after its sleep; the expiry function is identified by shape if renamed.",
 		NotDecided:  "FIFO order of Go channels (language guarantee), actual timing of the sweeper, KCP behaviour above the adapters.",
 		Assumptions: []string{"conn.Close() unblocks a carrier's pending ReadFrom/WriteTo (net.PacketConn contract)", "Go channel semantics"},
 	}, runC17)
@@ -209,6 +209,56 @@ func runC17(c *Ctx) {
 func (c *Ctx) checkGoroutineExits(tt []*ssa.Function) {
 	p := c.P
 	rule := "O-3 no goroutine outlives its carrier"
+	// exchange waits for either of its two goroutines on their error channels: each of them must
+	// signal on its channel (send or close, a deferred close included) on every way out, or exchange -
+	// and with it the carrier's Close and the next dial - waits for ever once the other one is parked
+	if ex := p.Fn("common/turbotunnel", "(*RedialPacketConn).exchange"); ex != nil {
+		// the channels exchange itself receives from in its final select
+		waited := map[ssa.Value]bool{}
+		for _, op := range chanOpsIn(p, ex) {
+			if op.Dir == chRecv && op.Sel != nil {
+				if mc, ok := xstrip(op.Chan).(*ssa.MakeChan); ok {
+					waited[mc] = true
+				}
+			}
+		}
+		for _, ci := range callsIn(ex) {
+			g, ok := ci.(*ssa.Go)
+			if !ok {
+				continue
+			}
+			body := staticCallee(g)
+			if body == nil || body.Blocks == nil {
+				continue
+			}
+			// the waited channel this body signals on
+			signals := func(in ssa.Instruction) bool {
+				switch x := in.(type) {
+				case *ssa.Send:
+					mc, ok := xstrip(x.Chan).(*ssa.MakeChan)
+					return ok && waited[mc]
+				case ssa.CallInstruction:
+					if calleeName(x) == "builtin.close" {
+						mc, ok := xstrip(x.Common().Args[0]).(*ssa.MakeChan)
+						return ok && waited[mc]
+					}
+				}
+				return false
+			}
+			any := false
+			allInstrs(body, func(in ssa.Instruction) {
+				if signals(in) {
+					any = true
+				}
+			})
+			if !any {
+				continue // not one of the two signalling goroutines
+			}
+			path := escapesWithout(body.Blocks[0], signals)
+			c.check(path == nil, rule, p.FnName(body)+" signals its end to exchange on every way out", p.Pos(body.Pos()), "send on or close of its error channel (deferred close included)",
+				"a way out of the goroutine neither sends on nor closes the channel exchange waits on: when it leaves because the connection was closed while the other goroutine is parked in ReadFrom, exchange never returns, the carrier is never closed and the goroutines are retained", p.pathString(path)...)
+		}
+	}
 	n := 0
 	for _, fn := range tt {
 		for _, ci := range callsIn(fn) {
@@ -440,11 +490,40 @@ func (c *Ctx) checkExpiry() {
 	p := c.P
 	rule := "O-7 expiry shape"
 	re := p.Fn("common/turbotunnel", "(*clientMapInner).removeExpired")
-	if re == nil || len(re.Params) < 3 {
+	paramOfType := func(fn *ssa.Function, typ string) int {
+		idx := -1
+		for i, pr := range fn.Params {
+			if pr.Type().String() == typ {
+				if idx >= 0 {
+					return -1
+				}
+				idx = i
+			}
+		}
+		return idx
+	}
+	if re == nil {
+		// renamed with another parameter order: the one method of clientMapInner that takes a
+		// time and a duration and pops from the heap
+		var cands []*ssa.Function
+		for _, fn := range p.FnsIn("common/turbotunnel") {
+			if fn.Signature.Recv() == nil || !strings.HasSuffix(fn.Signature.Recv().Type().String(), "clientMapInner") || len(fn.Params) != 3 {
+				continue
+			}
+			if paramOfType(fn, "time.Time") > 0 && paramOfType(fn, "time.Duration") > 0 && len(callsTo(fn, "container/heap.Pop")) > 0 {
+				cands = append(cands, fn)
+			}
+		}
+		if len(cands) == 1 {
+			re = cands[0]
+		}
+	}
+	if re == nil || len(re.Params) < 3 || paramOfType(re, "time.Time") < 1 || paramOfType(re, "time.Duration") < 1 {
 		c.undecided(rule, "clientMapInner.removeExpired", "-", "anchor does not resolve")
 		return
 	}
-	now, timeout := re.Params[1], re.Params[2]
+	nowIdx, timeoutIdx := paramOfType(re, "time.Time"), paramOfType(re, "time.Duration")
+	now, timeout := re.Params[nowIdx], re.Params[timeoutIdx]
 	lastSeenOfRoot := func(v ssa.Value) bool {
 		_, f, ok := fieldLoad(v)
 		if !ok || f.Name() != "LastSeen" {
@@ -516,6 +595,30 @@ func (c *Ctx) checkExpiry() {
 	// sweeper
 	if nm := p.Fn("common/turbotunnel", "NewClientMap"); nm != nil {
 		okSleep, okPass := false, false
+		// the sweep judges idleness against a clock read after the sleep (a reading taken before it is half a
+		// timeout stale when the sweep runs: queues are closed a whole sweep late)
+		for _, clo := range nm.AnonFuncs {
+			var sleep, sweep ssa.CallInstruction
+			for _, d := range deepInstrs(clo, 2, func(in ssa.Instruction) bool {
+				ci, ok := in.(ssa.CallInstruction)
+				return ok && (calleeName(ci) == "time.Sleep" || staticCallee(ci) == re)
+			}) {
+				if calleeName(d.In.(ssa.CallInstruction)) == "time.Sleep" {
+					sleep, _ = d.Top.(ssa.CallInstruction)
+				} else {
+					sweep = d.In.(ssa.CallInstruction)
+				}
+			}
+			if sleep != nil && sweep != nil {
+				nowC, _, okn := callResult(sweep.Common().Args[nowIdx])
+				fresh := okn && calleeName(nowC) == "time.Now" && nowC.Parent() == sleep.Parent() && nowC.Block() == sleep.Block() && instrIndex(sleep) < instrIndex(nowC)
+				if okn && calleeName(nowC) == "time.Now" && nowC.Parent() == sleep.Parent() && nowC.Block() != sleep.Block() {
+					// different blocks: the clock read must not be followed by the sleep before the sweep
+					fresh = reachPath(sleep.Block(), nowC.Block(), nil) != nil && !inSameBlockBefore(nowC, sleep)
+				}
+				c.check(fresh, rule, "the sweeper reads the clock after sleeping, right before the sweep", p.instrPos(sweep), "time.Now() follows time.Sleep in the iteration", "removeExpired is given a time that was not read after the sleep of this iteration: idleness is judged against a stale clock and idle queues are kept for up to another sweep period")
+			}
+		}
 		for _, clo := range nm.AnonFuncs {
 			for _, d := range deepInstrs(clo, 2, func(in ssa.Instruction) bool {
 				ci, ok := in.(ssa.CallInstruction)
@@ -531,7 +634,7 @@ func (c *Ctx) checkExpiry() {
 						}
 					}
 				case staticCallee(ci) == re:
-					if sameValue(ci.Common().Args[2], func(v ssa.Value) bool { return v == ssa.Value(nm.Params[0]) }) {
+					if sameValue(ci.Common().Args[timeoutIdx], func(v ssa.Value) bool { return v == ssa.Value(nm.Params[0]) }) {
 						okPass = true
 					}
 				}
@@ -585,4 +688,8 @@ func (c *Ctx) checkExpiry() {
 		}
 		c.check(ok, rule, "clientMapInner.Pop closes the removed record's queue", p.Pos(pop.Pos()), "", "a discarded queue is not closed: the carrier's write loop waits on it for ever")
 	}
+}
+
+func inSameBlockBefore(a, b ssa.Instruction) bool {
+	return a.Block() == b.Block() && instrIndex(a) < instrIndex(b)
 }
